@@ -55,8 +55,18 @@ def judge(meta, site, triage):
     key = site_key(site)
     e = triage.get(key)
     if e is not None:
-        need = e.get("requires_guard")
-        if need and not ((meta.get("guard") or "").startswith(need) or cls == "P" or e.get("guard_optional_for_checked") and meta.get("policy") == "checked"):
-            return "violation", "table entry holds only under the %r precondition, which this root does not have" % need
-        return "triaged", key
+        ap = e.get("applies", "any")
+        if ap == "any" or any(cond_holds(c, meta) for c in ap):
+            return "triaged", key
+        return "violation", ("table entry for this construct holds only for roots with %s; this root has none of "
+                             "these preconditions" % " / ".join(ap))
     return "violation", "panic-capable construct reachable in a function that must not panic (no table entry)"
+
+
+def cond_holds(cond, meta):
+    k, v = cond.split("=", 1)
+    if k == "guard":
+        return (meta.get("guard") or "").startswith(v)
+    if k == "api":
+        return (meta.get("base") or meta.get("api")) == v
+    return str(meta.get(k)) == v
